@@ -21,7 +21,7 @@ RULE = ('One phase under test (PUT) placed in a position template {first, after 
         'Hypothesis draws from the whole product; a decision table (options x 2-invocation behaviours x diagnosers x positions) '
         'is enumerated in seed-selected shards (quick) or completely (thorough).  Oracle: reference interpreter - exact list of '
         'records of the PUT (outcome, result, diagnosis results, measurement outcomes), exact body / run_if / diagnoser '
-        'invocation events.  Non-trivial = >=2 options set, or >=2 invocations executed, or a non-default position; distinct by AST.')
+        'invocation events.  Non-trivial = >=2 options set, or >=2 invocations executed, or a non-default position; distinct by AST.  Aborted invocations (real threads): the test is aborted while the body of a phase with 1-2 diagnosers runs, in 4 positions x 3 delays: outcome ABORTED, the aborted invocation\'s diagnosers do not run and leave no result in phase or test record, a following teardown phase\'s diagnoser runs once; a kill that raced with the executor\'s poll (record says timeout) is classed, not judged.')
 ASSUMPTIONS = [
     'Timeout invocations are produced only by timeout_s=0 + blocking body; whether an abandoned body started is not compared.',
 ]
@@ -188,10 +188,107 @@ def monitored_table():
             yield {'o': o, 'beh': [[e, m], ['NONE', 'p']], 'diag': ds, 'pos': pos, 'nmeas': 1, 'allow_unset': False, 'sof': None}
 
 
+# ------------------------------------------------------------------ aborted invocations ("... nor aborted")
+ABORT_POSITIONS = ['first', 'in_subtest', 'in_group_main', 'after_pass']
+
+
+def aborted_cases():
+  for pos in ABORT_POSITIONS:
+    for ndiag in (1, 2):
+      for delay_ms in (0, 2, 10):
+        for fail in (False, True):
+          yield {'aborted': True, 'pos': pos, 'ndiag': ndiag, 'delay_ms': delay_ms, 'fail': fail}
+
+
+def check_aborted(c):
+  """The test is aborted while the body of the phase under test runs: that invocation's diagnosers do not run."""
+  import time  # pylint: disable=g-import-not-at-top
+  from vf import ohtf  # pylint: disable=g-import-not-at-top
+  r = CaseResult()
+  htf = ohtf.reset_case(cancel_timeout_s=5)
+  R = progs.result_enum()
+  ran, started, release = [], threading.Event(), threading.Event()
+
+  def mk(k):
+    @htf.PhaseDiagnoser(R, name='d%d' % k)
+    def d(phase_record):
+      ran.append('d%d' % k)
+      return htf.Diagnosis([R.R0, R.R1][k % 2], 'made by d%d' % k, is_failure=bool(c['fail'] and k == 0))
+    return d
+
+  @htf.PhaseDiagnoser(R, name='dtd')
+  def dtd(phase_record):
+    ran.append('dtd')
+    return htf.Diagnosis(R.R2, 'teardown')
+
+  def p1(test):
+    started.set()
+    while not release.is_set():     # every iteration is a place where the kill can land
+      time.sleep(0.001)
+  put = htf.diagnose(*[mk(k) for k in range(c['ndiag'])])(p1)
+
+  def before(test):
+    pass
+
+  @htf.diagnose(dtd)
+  def td(test):
+    pass
+
+  pos = c['pos']
+  if pos == 'first':
+    nodes = [put]
+  elif pos == 'after_pass':
+    nodes = [before, put]
+  elif pos == 'in_subtest':
+    nodes = [htf.Subtest('st', before, put)]
+  else:
+    nodes = [htf.PhaseGroup(main=[put], teardown=[td])]
+  test = htf.Test(*nodes)
+  got = []
+  test.add_output_callbacks(got.append)
+
+  def aborter():
+    if started.wait(10):
+      time.sleep(c['delay_ms'] / 1000.0)
+      test.abort_from_sig_int()
+  th = threading.Thread(target=aborter, name='vf-c05-aborter', daemon=True)
+  th.start()
+  exc = None
+  try:
+    test.execute(test_start=lambda: 'dut')
+  except Exception as e:  # pylint: disable=broad-except
+    exc = e
+  finally:
+    release.set()
+    th.join(5)
+  r.nontrivial = True
+  r.classes = ['aborted', 'pos:' + pos, 'diag:%d' % c['ndiag'], 'delay_ms:%d' % c['delay_ms']]
+  if exc is not None or not got:
+    r.bad('C05/aborted/no-record', 'execute() raised %r, %d records' % (exc, len(got)))
+    return r
+  rec = got[0]
+  mine = [p for p in rec.phases if p.name == 'p1']
+  if rec.outcome.name != 'ABORTED' or len(mine) != 1:
+    r.bad('C05/aborted/outcome-%s' % rec.outcome.name, 'aborted during p1: outcome %s, %d records of p1' % (rec.outcome.name, len(mine)))
+    return r
+  if mine[0].result.phase_result is None:
+    # the executor's poll saw the kill before the body had died and wrote the invocation off as timed out: not the abort path
+    r.classes.append('kill-raced-with-poll')
+    return r
+  mine_ran = [x for x in ran if x != 'dtd']
+  if mine_ran or mine[0].diagnosis_results or mine[0].failure_diagnosis_results or [d for d in rec.diagnoses if d.result != R.R2]:
+    r.bad('C05/aborted/diagnosers-ran', '%s: the invocation was aborted (record result %r) yet its diagnosers ran %r; phase record results %r, test diagnoses %r' % (
+        pos, mine[0].result.phase_result, mine_ran, mine[0].diagnosis_results, [d.result for d in rec.diagnoses]))
+  if pos == 'in_group_main' and ran.count('dtd') != 1:
+    r.bad('C05/aborted/teardown-diagnoser-ran-%d-times' % ran.count('dtd'), 'the teardown phase ran to its end; its diagnoser ran %d times' % ran.count('dtd'))
+  return r
+
+
 def plan(tier, seed):
   jobs = []
   for s in range(8):
     jobs.append({'kind': 'montable', 'name': 'montable%d' % s, 'shard': s, 'nshards': 8})
+  jobs.append({'kind': 'aborted', 'name': 'aborted', 'reps': 1 if tier == 'quick' else 10})
   n = 500 if tier == 'quick' else 10000
   for i in range(16):
     jobs.append({'kind': 'hyp', 'name': 'hyp%d' % i, 'hseed': seed * 1000 + i, 'n': n})
@@ -209,6 +306,13 @@ def run_job(job, acct):
     runner.run_regress(sys.modules[__name__], job, acct)
   elif job['kind'] == 'hyp':
     hyp.search(acct, cases(), check, seed=job['hseed'], max_examples=job['n'], known=known)
+  elif job['kind'] == 'aborted':
+    for _ in range(job['reps']):
+      for c in aborted_cases():
+        r = check_aborted(c)
+        acct.case(c, r.nontrivial, r.classes)
+        for sig, detail in r.violations:
+          (acct.known if sig in known else acct.violation)(sig, c, detail)
   elif job['kind'] == 'montable':
     for i, c in enumerate(monitored_table()):
       if i % job['nshards'] != job['shard']:
@@ -232,4 +336,6 @@ def run_job(job, acct):
 
 
 def replay(case):
+  if case.get('aborted'):
+    return check_aborted(case).violations
   return check(case).violations
